@@ -2,20 +2,29 @@
 from props import clihist_common as C
 from props._client_family import *  # noqa
 
+TRANSLATORS = ["http_gate", "sniff"]
+MODELS = ["clihist", "httpbatch"]
+BINS = {"release": ["clihist", "httpbatch"]}
+
 RULE = ("histories of the real async client over a scripted mock transport vs the extracted ClientMgr model: random "
         "histories (calls, batches, subscriptions, notifications; answers in any order, duplicated, omitted, foreign ids; "
         "both id kinds; gated transport) + every permutation of the answers to k<=3 (quick) / k<=4 (thorough) concurrent calls with one "
         "answer duplicated/omitted.  Oracle on the implementation alone: payload markers tie every completion to the id its call "
         "put on the wire; at most one completion per call; wire ids pairwise distinct.  distinct non-trivial = distinct output "
-        "lines with >= 2 completions/stream polls")
+        "lines with >= 2 completions/stream polls.  HTTP client (engine httpbatch, single-call mode, Model/HttpBatch.v http_single): "
+        "one call answered with its own id / another id of either kind / null id, result or error object, and verbatim bodies; "
+        "oracle: a result is delivered iff the response bears the call's own id (derived PartialEq: 1 and \"1\" differ)")
 
 
 def run(ctx):
-    ctx.engines = ["clihist (harness/src/bin/clihist.rs vs modelrun/clihist_driver.ml over coq/Model/ClientMgr.v)"]
+    ctx.engines = ["clihist (harness/src/bin/clihist.rs vs modelrun/clihist_driver.ml over coq/Model/ClientMgr.v)",
+                   "httpbatch single-call mode (harness/src/bin/httpbatch.rs vs modelrun/httpbatch_driver.ml over coq/Model/HttpBatch.v)"]
     hs = C.c03_permutation_histories(ctx.rng, kmax=ctx.scale(3, 4))
     hs += random_histories(ctx, ctx.scale(1500, 150000))
     # a batch entry is a call too: every id sequence of length n from the batch's own range (n <= 3 quick, 4 thorough);
     # the batch oracle checks that no entry completes with a response bearing another entry's id
     hs += C.c12_idseq_histories(ctx.rng, nmax=ctx.scale(3, 4))
     C.run_histories(ctx, hs, ["c03", "c12"])
+    from props import httpbatch_common as HB
+    HB.run_single(ctx)
     ctx.exhaustive = False
